@@ -87,7 +87,18 @@ def _job(job):
             it.max_depth = it.depth
             base = it.depth
             try:
-                it.call(it.getattr(f, meth), [])
+                if meth == "@substitute(value)":
+                    # the tower is the *replacement*: v[v := tower], through the node's own entry point
+                    v = w.symbol("subst_target", w.nsort(f))
+                    it.call(it.getattr(v, "substitute"), [{v: f}])
+                elif meth == "@substitute(key)":
+                    # the tower is the key of the map (and the formula): tower[tower := v]
+                    v = w.symbol("subst_target", w.nsort(f))
+                    it.call(it.getattr(f, "substitute"), [{f: v}])
+                elif meth == "@in manager":
+                    it.contains(w.mgr, f)
+                else:
+                    it.call(it.getattr(f, meth), [])
             except AbsRaise as ex:
                 return ("raise", ex.cls_name)
             return ("ret", it.max_depth - base)
@@ -111,7 +122,7 @@ def _job(job):
 
 def results(tier):
     repo = get_repo()
-    eps = entry_points(repo)
+    eps = entry_points(repo) + ["@substitute(value)", "@substitute(key)", "@in manager"]
     fams = sorted(families())
     jobs = [(m, f) for m in eps for f in fams]
     return eps, parallel_map(_job, jobs)
